@@ -528,7 +528,7 @@ func TestPointerChains(t *testing.T) {
 	s := vf.Begin(t, P, "pointer-chains-exhaustive")
 	s.SetExhaustive()
 	vf.Enum(s, func(yield func(chainCase)) {
-		for h := 1; h <= vf.N(40, 400); h++ {
+		for h := 1; h <= vf.Size(40, 400); h++ {
 			yield(chainCase{h})
 		}
 	}, func(c chainCase) []vf.Finding {
